@@ -222,12 +222,18 @@ class SigmaCollection:
                     else:
                         raise exception
 
-        return cls(
+        collection = cls(
             init_rules=parsed_rules,
             errors=errors,
             collect_filters=collect_filters,
-            resolve_references=resolve_references,
+            resolve_references=resolve_references and not collect_errors,
         )
+        if resolve_references and collect_errors:  # an unresolvable reference is collected as well
+            try:
+                collection.resolve_rule_references()
+            except SigmaError as e:
+                collection.errors.append(e)
+        return collection
 
     @classmethod
     def from_yaml(
